@@ -282,6 +282,62 @@ static void suite_hashmt(Rng &rng) {
   emitI("hashmt", "concurrent_digests", S(total));
 }
 
+// first use in a fresh process image by several threads at once (one-time initialisation must not race): the child is this binary
+// re-executed in "firstuse" mode; its eight threads start together and each does its first AES / mode / hash call; the parent compares
+// with its own sequential results
+static std::string g_self_exe; static long g_stagger = 0;
+static std::string firstuse_work(int t, std::atomic<int> *ready = NULL, std::atomic<bool> *go = NULL) {      // deterministic work of thread t, result as hex
+  Rng r(777 + t); std::string out; out.reserve(4096);
+  alignas(16) unsigned char k0[16], b0[16]; { bytes key = r.buf(16), blk = r.buf(16); memcpy(k0, key.data(), 16); memcpy(b0, blk.data(), 16); }
+  { encryaes e(k0); decryaes d(k0);             // the objects exist; what follows the barrier is the first block operation of the process
+    if (ready) (*ready)++;
+    if (go) { while (!*go) { } for (volatile long i = 0; i < (long)t * g_stagger; i++) { } }   // released together, then staggered by a few hundred nanoseconds per thread: a one-time initialisation that is still in progress in one thread can be observed by the next
+    if (t % 2) { e.runaes_128bit(b0); out += hex(b0, 16); d.runaes_128bit(b0); out += hex(b0, 16); }
+    else { d.runaes_128bit(b0); out += hex(b0, 16); e.runaes_128bit(b0); out += hex(b0, 16); } }
+  for (int i = 0; i < 6; i++) { bytes key = r.buf(16), blk = r.buf(16); alignas(16) unsigned char k[16], b[16]; memcpy(k, key.data(), 16); memcpy(b, blk.data(), 16);
+    { encryaes e(k); e.runaes_128bit(b); } out += hex(b, 16); { decryaes d(k); d.runaes_128bit(b); } out += hex(b, 16); }
+  { bytes key = r.buf(16), iv = r.buf(16), data = r.buf(48); alignas(16) unsigned char k[16], v[16]; memcpy(k, key.data(), 16); memcpy(v, iv.data(), 16);
+    for (int ty = 0; ty < 5; ty++) { AesFactory f(k); f.loadiv(v); Aesmode *m = f.createCryMaster(true, (u8_t)ty); bytes o = data; for (size_t off = 0; off < 48; off += 16) { alignas(16) unsigned char blk[16]; memcpy(blk, &o[off], 16); m->runcry(blk); memcpy(&o[off], blk, 16); } delete m; out += hex(o); } }
+  for (int a = 0; a < 3; a++) { bytes m = r.buf(70 + t); HashFactory hf; Hashmaster *h = hf.getHasher(hf.getType((u8_t)a)); unsigned char d[64]; h->getStringHash(m.data(), (u32_t)m.size(), d); out += hex(d, h->gethlen()); delete h; }
+  { unsigned char o[64]; bytes m = r.buf(16); hex_to_base64(m.data(), 16, o); out += hex(o, 25); }
+  return out;
+}
+static int firstuse_child() {
+  const int NT = 12; std::vector<std::string> res(NT); std::atomic<int> ready(0); std::atomic<bool> go(false);
+  std::vector<std::thread> th;
+  for (int t = 0; t < NT; t++) th.emplace_back([&, t]() { res[t] = firstuse_work(t, &ready, &go); });
+  while (ready < NT) { } go = true; for (auto &x : th) x.join();
+  std::string all; for (auto &x : res) all += x + "\n";
+  size_t off = 0; while (off < all.size()) { ssize_t w = write(3, all.data() + off, all.size() - off); if (w <= 0) break; off += w; }
+  return 0;
+}
+static void suite_firstuse(Rng &rng) {
+  (void)rng; const int NT = 12; std::vector<std::string> want; for (int t = 0; t < NT; t++) want.push_back(firstuse_work(t));
+  long procs = tier_thorough() ? 400 : 80, bad = 0; std::string firstbad;
+  for (long i = 0; i < procs; i++) {
+    int p[2]; if (pipe(p) != 0) abort(); fflush(g_proto);
+    pid_t pid = fork();
+    if (pid == 0) { dup2(p[1], 3); close(p[0]); if (p[1] != 3) close(p[1]); static const char *stag[] = {"0", "15", "40", "90", "200", "450", "1000", "2500"}; char *av[] = {(char *)g_self_exe.c_str(), (char *)"firstuse-child", (char *)stag[i % 8], NULL}; execv(g_self_exe.c_str(), av); _exit(126); }
+    close(p[1]); std::string got; char buf[8192]; ssize_t n; while ((n = read(p[0], buf, sizeof buf)) > 0) got.append(buf, n); close(p[0]); int st; waitpid(pid, &st, 0);
+    std::string exp; for (auto &x : want) exp += x + "\n";
+    if (!WIFEXITED(st) || WEXITSTATUS(st) != 0) { bad++; if (firstbad.empty()) firstbad = "the child crashed (wait status " + S(st) + ")"; }
+    else if (got != exp) { bad++; if (firstbad.empty()) { size_t d = 0; while (d < got.size() && d < exp.size() && got[d] == exp[d]) d++; firstbad = "results differ from the sequential ones at character " + S((long)d); } }
+  }
+  if (bad) emitA("firstuse", "C09", S(bad) + " of " + S(procs) + " fresh processes whose twelve threads make their FIRST AES / mode / hash / base64 calls at the same time computed wrong results (" + firstbad + "); each thread has its own objects");
+  emitI("firstuse", "fresh_processes", S(procs));
+}
+
+// a message of 2^29+61 bytes (bit length beyond 32 bits) through the memory entry point, thorough tier only; reference digests from hashlib
+static void suite_hashbig(Rng &rng) {
+  (void)rng; if (!tier_thorough()) { emitI("hashbig", "skipped", "quick tier"); return; }
+  size_t n = ((size_t)1 << 29) + 61; std::vector<unsigned char> m(n); for (size_t i = 0; i < n; i++) m[i] = (unsigned char)(i % 251);
+  static const char *want[3] = {"b997c2088dda80d2f1e8a079965074a6d01b721f", "94ac13603436a4b70682234f804421e5", "74775216e9ad833812ff62243043618fbe6e089c04137a33db8179f01ec17046"};
+  for (int alg = 0; alg < 3; alg++) { trace_case("hashbig", "alg=" + S(alg) + " message m[i] = i % 251 of 2^29+61 bytes");
+    HashFactory hf; Hashmaster *h = hf.getHasher(hf.getType((u8_t)alg)); unsigned char d[64]; h->getStringHash(m.data(), (u32_t)n, d); std::string got = hex(d, h->gethlen()); delete h;
+    if (got != want[alg]) emitA("hashbig", "C07", "digest of the 2^29+61-byte message m[i] = i % 251 (alg " + S(alg) + ") is " + got + ", the standard one (hashlib) is " + want[alg]); }
+  emitI("hashbig", "big_messages", "3");
+}
+
 // ---------------- C08 ----------------
 static void suite_hmac(Rng &rng) {
   if (HB > 64) return;
@@ -399,6 +455,8 @@ static void suite_b64(Rng &rng) {
 extern "C" void wencry_verif_point(int, int) {}
 
 int main(int argc, char **argv) {
+  { char buf[4096]; ssize_t n = readlink("/proc/self/exe", buf, sizeof buf - 1); g_self_exe = n > 0 ? std::string(buf, n) : std::string(argv[0]); }
+  if (argc > 1 && std::string(argv[1]) == "firstuse-child") { g_proto = fopen("/dev/null", "w"); g_stagger = argc > 2 ? atol(argv[2]) : 0; return firstuse_child(); }
   proto_init();
   long seed = env_long("VERIF_SEED", 1);
   std::string which = argc > 1 ? argv[1] : "all";
@@ -408,6 +466,8 @@ int main(int argc, char **argv) {
   if (which == "mode" || which == "all") suite_mode(rng);
   if (which == "hash" || which == "all") suite_hash(rng);
   if (which == "hashmt") suite_hashmt(rng);
+  if (which == "firstuse") suite_firstuse(rng);
+  if (which == "hashbig") suite_hashbig(rng);
   if (which == "hmac" || which == "all") suite_hmac(rng);
   if (which == "b64" || which == "all") suite_b64(rng);
   fflush(g_proto);
